@@ -480,6 +480,7 @@ package hclsyntax
 // verif:func ParseStringLiteralToken
 //@ nosafety nil panic assert
 //@ props C02,C12,C15
+//@ assumesassigns litDecodes
 //@ assumes counted: litDecodes == old(litDecodes) + 1
 //@ assumes litOK(tok.Bytes) ==> !hasErr(ret1)
 //@ assumes ret0 == litVal(tok.Bytes)
